@@ -335,6 +335,26 @@ class ExprMixin(object):
             if isinstance(b, EnumVal) and isinstance(a, Const):
                 return False
             return None
+        if op in ('in', 'not in') and not isinstance(l, Phi):
+            keys = None
+            if isinstance(r, DictObj):
+                keys = [k for k, _ in r.entries]
+            elif isinstance(r, TupleT) or (isinstance(r, ListObj) and not r.open):
+                keys = list(r.items)
+            if keys is not None and len(keys) <= 32:
+                cs = [self.compare('==', k, l) for k in keys]
+                if any(isinstance(c, Const) and c.value for c in cs):
+                    return Const(op == 'in')
+                if all(isinstance(c, Const) and not c.value for c in cs):
+                    return Const(op != 'in')
+        if op in ('in', 'not in') and isinstance(l, Phi) and not isinstance(r, Phi) and \
+                len(l.alts) <= 16:
+            vs = set()
+            for a in l.terms():
+                c = self.compare(op, a, r)
+                vs.add(c.value if isinstance(c, Const) else None)
+            if len(vs) == 1 and None not in vs:
+                return Const(vs.pop())
         if op in ('==', 'is', '!=', 'is not') and (isinstance(l, Phi) or isinstance(r, Phi)):
             # a join whose alternatives all give the same verdict has that verdict
             # (in particular a value with one alternative and an origin)
@@ -598,13 +618,32 @@ class ExprMixin(object):
             if -len(base.items) <= idx.value < len(base.items):
                 return base.items[idx.value]
         if isinstance(base, ListObj):
+            # (positions of a sorted() result are not those of its argument)
             if not base.open and isinstance(idx, Const) and isinstance(idx.value, int) \
-                    and -len(base.items) <= idx.value < len(base.items):
+                    and -len(base.items) <= idx.value < len(base.items) and \
+                    (base.kind not in ('sorted', 'set') or len(base.items) == 1):
                 return base.items[idx.value]
             if not isinstance(idx, Slice) and base.items:
                 if self.cur is not None:
                     self.emit('lookup', node, {'list': base, 'key': idx})
                 return strip_origins(join(*base.items))
+        if isinstance(base, DictObj) and isinstance(idx, Phi) and len(idx.alts) > 1 and \
+                base.entries:
+            # a key that is one of several values: the entry of each (the alternative keeps
+            # the site that handed the key over); a key that is certainly absent would
+            # raise KeyError and contributes nothing
+            outs = []
+            for a, o in idx.alts:
+                cs = [self.compare('==', k, a) for k, _ in base.entries]
+                if all(isinstance(c, Const) and not c.value for c in cs):
+                    continue
+                outs.append((self.subscript(base, a, node), o))
+            if outs:
+                if self.cur is not None:
+                    self.emit('lookup', node, {'dict': base, 'key': idx,
+                                               'keys': [k for k, _ in base.entries],
+                                               'values': [v for v, _ in outs]})
+                return join(*outs)
         if isinstance(base, DictObj):
             hits = []
             decided = True
